@@ -389,3 +389,37 @@ prop(dict(
          "2^16 points of a 2^24 domain (field separability + round trip counted by the harness, judged = 0). distinct = distinct case records",
     assumptions=COMMON_ASSUME + ["2^24 domains: TLC judges the axes exactly and the harness-counted separability/round-trip violations to be zero (axes-exact and separable => bit-exact on the product)"],
 ))
+
+
+# ---------------------------------------------------------------- C19
+def rand_c19(seed, tier, cases=None):
+    rng = random.Random(seed * 7919 + 19)
+    out = []
+    for _ in range(2500 if tier == "quick" else 60000):
+        ln = rng.choice([0, 1, 2, 3, 4, 5, 8, rng.randint(0, 40)])
+        b = [rng.randint(0, 255) for _ in range(ln)]
+        if b and rng.random() < 0.5:
+            b[0] &= 0xF0  # per-stream masks
+        prev = [rng.randint(0, 255) for _ in range(rng.randint(0, 12))]
+        out.append(dict(fam="C19", kind="bytes", bytes=b, prev=prev, tags=dict(ns=0, nlayers=0, shared=False, hasres=False, has_empty_stream=False),
+                        **{"class": "rand_bytes"}))
+    return out
+
+
+prop(dict(
+    id="C19", fam="C19",
+    mc=[("VLAMC.tla", "VLAMC.cfg", {"thorough": {"MaxNs": "4"}})],
+    gen=[("VLAGen.tla", "VLAGen.cfg", {"thorough": {"Stride3": "1", "Stride4": "3", "TruncStride": "11"}})],
+    rand=rand_c19,
+    trace=("VLATrace.tla", "VLATrace.cfg"),
+    shards={"quick": 2, "thorough": 14},
+    workers=16,
+    nontrivial=lambda c: c["kind"] != "bytes" or len(c["bytes"]) >= 2,
+    mandatory=["ns1_shared", "ns2_perstream", "ns2_perstream_res", "ns3_perstream", "ns4_perstream_res", "ns4_shared", "ns3_nolayers", "trunc",
+               "invalid_stream_count", "invalid_stream_id", "invalid_spatial_id", "invalid_duplicate", "invalid_temporal_count", "huge_rate", "rand_bytes"],
+    rule="TLC enumerates every subset of the (stream, spatial) slots for 1-2 streams and a strided subset for 3-4 streams (thorough: all 4096 for 3, every third of 65536 for 4), "
+         "each with and without resolution, temporal counts 1-4 and bitrates rotating through ten LEB128 size classes (0 .. 2^55); EncVLA(v) is the reference encoding used both as the "
+         "expected Marshal output and as an independent decoder input (fresh and used receiver); every truncation of a subset of the encodings, invalid values for each rejection rule and "
+         "seeded random byte strings feed the decoder; distinct = distinct case records",
+    assumptions=COMMON_ASSUME + ["VLAs without any active layer are judged for round trip and panics only (the specification text does not fix their temporal-layer byte)"],
+))
